@@ -81,7 +81,7 @@ PROPS = {
                 'pattern up to renaming) de-duplicated. evaluation = one translate compared cell by cell; non-trivial = '
                 'the translation both keeps and blanks cells (S1) or is a second or later translation (S2).',
         'assumptions': ['cell type int (the grid only copies values)', 'states are (impl offsets, model accumulated offset mod size[, value pattern])'],
-        'tiers': {'quick': {'deadline': 300}, 'thorough': {'deadline': 3000, 'case_timeout': 600}},
+        'tiers': {'quick': {'deadline': 600, 'case_timeout': 300}, 'thorough': {'deadline': 3000, 'case_timeout': 600}},
         'technique': 'explicit-state model checking of the implementation: BFS over operation sequences to fixpoint / stated depth with a reference window model in lock-step',
         'level_text': 'all reachable index-offset states (fixpoint) with every offset from every state, and every '
                       'translation/write sequence up to depth 3 on all grid sizes the property names, each step compared '
